@@ -226,6 +226,17 @@ def search(ctx):
             r = em.lnposterior(bad, data)
             if r != -np.inf or cnt.calls != 0:
                 ctx.violation("C12:outside-support", "value outside the support: lnposterior %r, forward evaluations %d" % (r, cnt.calls), info)
+            # a prior bounded on one side only: beyond its finite bound the posterior is -inf and nothing is computed
+            for lo_, hi_, rbad in ((0.45, np.inf, 0.40), (-np.inf, 0.65, 0.70)):
+                cnt3 = Counter(data)
+                sc1 = Sphere(n=1.59, r=BoundedGaussian(0.55, 0.1, lo_, hi_), center=[truth.center[0], truth.center[1], pz])
+                em1 = ExactModel(sc1, calc_func=cnt3, noise_sd=sd, theory=Mie(), **OPT)
+                vals1 = dict(zip(em1._parameter_names, [p.guess for p in em1._parameters]))
+                vals1[[nm for nm in em1._parameter_names if nm.endswith('r')][0]] = rbad
+                ctx.tried("one-sided-support", (lo_, hi_, rbad))
+                r1, lp1 = em1.lnposterior(vals1, data), em1.lnprior(vals1)
+                if r1 != -np.inf or lp1 != -np.inf or cnt3.calls != 0:
+                    ctx.violation("C12:outside-support:one-sided", "r = %g is outside BoundedGaussian(0.55, 0.1, %r, %r): lnprior %r, lnposterior %r, forward evaluations %d" % (rbad, lo_, hi_, lp1, r1, cnt3.calls), info)
             cnt2 = Counter(data)
             two = Spheres([Sphere(n=1.59, r=0.5, center=[Uniform(0, 2, guess=0.5), 0.5, 5.0]), Sphere(n=1.59, r=0.5, center=(1.0, 0.5, 5.0))], warn=False)
             frac = float(rng.uniform(0.05, 0.5))
